@@ -506,6 +506,7 @@ fn child_outputs(path: &Path, i: usize) -> Result<Vec<(u64, String)>, String> {
 }
 
 pub const XPROC_CLASS: &str = "differs-across-processes";
+pub const XPROC_REPEATS: usize = 3;
 
 /// Execute every scenario of the document in its own fresh process and compare what the
 /// callers observed. The scenarios are variants of one history (same operations and clock
@@ -514,7 +515,10 @@ pub fn xproc_compare(path: &Path) -> Result<Option<Violation>, String> {
     let doc: Value = serde_json::from_str(&std::fs::read_to_string(path).map_err(|e| e.to_string())?).map_err(|e| e.to_string())?;
     let n = doc["scenarios"].as_array().map(|a| a.len()).unwrap_or(0);
     let mut first: Option<Vec<(u64, String)>> = None;
-    for i in 0..n {
+    // every variant is executed in XPROC_REPEATS fresh processes: a difference that shows only
+    // for some address-space layouts must not slip through a single lucky pair
+    for k in 0..n * XPROC_REPEATS {
+        let i = k % n;
         let outs = child_outputs(path, i)?;
         match &first {
             None => first = Some(outs),
@@ -643,10 +647,12 @@ fn cross_process_pass(p: &HistProp, seed: u64, tier: Tier, n: u64, same_seed_onl
     s.ops = ops;
     let path = coord::verif_root().join("replays").join(format!("{}-{}-{}-xproc.json", p.id, seed, index));
     coord::write_json(&path, &xproc_doc(p, seed, index, &variants_of(&s, same), &v.detail))?;
-    match xproc_compare(&path)? {
-        Some(v2) => Ok((indices.len() as u64, Some((index, path, v2.detail)))),
-        None => Err("cross-process disagreement did not reproduce from the minimised replay file; the difference between processes is itself unstable".into()),
+    for _attempt in 0..4 {
+        if let Some(v2) = xproc_compare(&path)? {
+            return Ok((indices.len() as u64, Some((index, path, v2.detail))));
+        }
     }
+    Err("cross-process disagreement did not reproduce from the minimised replay file in 4 attempts of 6 fresh processes each; the difference between processes is itself too unstable to report".into())
 }
 
 /// Reduced determinism proof run before every check: the same runs executed in fresh processes
@@ -801,7 +807,7 @@ pub fn check(p: &HistProp, tier: Tier, extra: impl FnOnce(&mut Map<String, Value
     extra_map.insert("determinism_precheck_runs_compared".into(), json!(pre));
     if p.cross_process {
         extra_map.insert("histories_compared_across_fresh_processes".into(), json!(xproc_compared));
-        extra_map.insert("fresh_processes_for_cross_process_pass".into(), json!(xproc_compared * 2));
+        extra_map.insert("fresh_processes_for_cross_process_pass".into(), json!(xproc_compared * 2 * XPROC_REPEATS as u64));
     }
     extra_map.insert(
         "real_vs_stub".into(),
@@ -854,7 +860,14 @@ pub fn replay_file(p: &HistProp, path: &Path, expect: Option<&str>) -> i32 {
         }
     };
     if doc["xproc"].as_bool() == Some(true) {
-        return match xproc_compare(path) {
+        let mut result = xproc_compare(path);
+        for _ in 0..3 {
+            if !matches!(result, Ok(None)) {
+                break;
+            }
+            result = xproc_compare(path);
+        }
+        return match result {
             Err(e) => {
                 eprintln!("harness error: {e}");
                 2
